@@ -7,6 +7,7 @@ CONSTANTS
   Nest = TRUE
   MaxDel = 2
   Merge = FALSE
+  Script <- NoScript
   Dups = TRUE
 SPECIFICATION Spec
 INVARIANTS InvOnce InvPlaced InvBetween InvDepClosed InvNothingLost InvPending InvConverge InvPairOrder InvClosed 
